@@ -209,7 +209,7 @@ def own_bound(body):
     return out
 
 
-def fix_nonlocals(body, rng, enclosing=None):
+def fix_nonlocals(body, rng, enclosing=None, gen=None):
     """choose the nonlocal declarations once every body is complete: a function that wants one declares a name that an
     enclosing function-like scope really binds (anything else is a SyntaxError)"""
     for s in body:
@@ -221,14 +221,21 @@ def fix_nonlocals(body, rng, enclosing=None):
                 c = sorted(n for n in enclosing if n not in pn and n not in s['gl'])
                 if c:
                     s['nl'] = [rng.choice(c)]
+            # a declared name is interesting when the function reads it first and rebinds it afterwards
+            for n in s['gl'] + s['nl']:
+                if gen is not None and rng.random() < 0.6:
+                    s['body'].insert(0, {'k': 'read', 'atoms': [[n, gen.rid()]]})
+                if gen is not None and rng.random() < 0.6:
+                    at = len(s['body']) - (1 if s['body'] and s['body'][-1]['k'] == 'return' else 0)
+                    s['body'].insert(at, {'k': 'assign', 'name': n, 'site': gen.site()})
             mine = (own_bound(s['body']) | pn) - set(s['gl']) - set(s['nl'])
-            fix_nonlocals(s['body'], rng, ((enclosing or set()) - set(s['gl'])) | mine)
+            fix_nonlocals(s['body'], rng, ((enclosing or set()) - set(s['gl'])) | mine, gen)
         elif k == 'class':
-            fix_nonlocals(s['body'], rng, enclosing)
+            fix_nonlocals(s['body'], rng, enclosing, gen)
         elif k in ('if', 'for'):
-            fix_nonlocals(s['body'], rng, enclosing)
+            fix_nonlocals(s['body'], rng, enclosing, gen)
             if k == 'if':
-                fix_nonlocals(s['orelse'], rng, enclosing)
+                fix_nonlocals(s['orelse'], rng, enclosing, gen)
 
 
 # ---------------------------------------------------------------------------
@@ -677,7 +684,7 @@ def generate(rng, max_depth=3):
     """one valid program: (body, Rendered, nodes, scopes) or None"""
     g = MGen(rng, max_depth=max_depth, names=rng.choice([NAMES, NAMES, ['a', 'b'], ['a', 'b', 'c']]))
     body = g.program()
-    fix_nonlocals(body, rng)
+    fix_nonlocals(body, rng, None, g)
     R = render(body)
     try:
         compile(R.source, '<mscope>', 'exec')
